@@ -75,8 +75,6 @@ theorem attrLoop_spec (parseExpr : String → Option String) (attrs : List Attr)
 
 /-! ### `<then>` -/
 
-def ThenItem.isDirty (c : ThenItem) : Bool := !(c.isReject || c.isComment)
-
 /-- child-level semantics of `thenLoop` -/
 def thenAbs (c : FCfg) (rj ot : Bool) : List ThenItem → Except Err (Bool × Bool)
   | [] => .ok (rj, ot)
@@ -693,12 +691,6 @@ theorem poAbs_congr {T} (sem1 sem2 : Stmt → Except Err (Option (String × T)))
           · exact ih h' _
 
 /-! ### the code as it is (`.pinned`) on statements without other content -/
-
-/-- the body holds nothing but at most one name, at most one `then`, comments; `then` holds nothing
-but `<reject/>` and comments -/
-def Stmt.plain (s : Stmt) : Bool :=
-  !s.body.any BodyItem.isOther && decide (s.names.length ≤ 1) && decide (s.thens.length ≤ 1) &&
-    s.thens.all fun cs => !cs.any ThenItem.isDirty
 
 theorem thenAbs_clean (c : FCfg) (cs : List ThenItem) (h : cs.any ThenItem.isDirty = false) (rj ot : Bool) :
     thenAbs c rj ot cs = .ok (rj || cs.any ThenItem.isReject, ot) := by
